@@ -141,7 +141,7 @@ theorem zipRows_filterBits (bits : List Bool) :
       rw [List.map_cons, List.map_cons, zipRows_cons_cons, zipRows_cons_cons, filterBits_zipWith]
       rw [← ih]; rfl
 
-theorem zipRows_replBits (r : Int) (bits : List Bool) :
+theorem zipRows_replBits (r : Scalar) (bits : List Bool) :
     ∀ (cols : List (List Val)),
       zipRows (cols.map (replBits (Val.fill r) bits)) =
         replBits (fun row : List Val => row.map (Val.fill r)) bits (zipRows cols) := by
@@ -173,17 +173,38 @@ theorem applyNp_none_ok {bits : List Bool} {xs : List Val} {y : Val}
       simp only [Except.ok.injEq] at h
       exact ⟨h.symm, by simpa using hl⟩
 
-theorem applyNp_some_ok {r : Int} {bits : List Bool} {xs : List Val} {y : Val}
+/-- what the `np.where` path returns: the promoted dtype `dt` exists and the result is the array of dtype
+`dt` of the replaced rows -/
+theorem applyNp_some_ok' {r : Scalar} {bits : List Bool} {xs : List Val} {y : Val}
     (h : applyNp (some r) bits xs = .ok y) :
-    y = .seq true (replBits (Val.fill r) bits xs) ∧ bits.length = xs.length := by
+    ∃ dt, (inferDType (scalarsList xs)).promote r.dtype = some dt ∧
+      y = .seq true (npCast dt (replBits (Val.fill r) bits xs)) ∧ bits.length = xs.length := by
   unfold applyNp at h
   split at h
   · cases h
   · split at h
     · cases h
     · rename_i hl
-      simp only [Except.ok.injEq] at h
-      exact ⟨h.symm, by simpa using hl⟩
+      simp only at h
+      split at h
+      · cases h
+      · rename_i dt hdt
+        simp only [Except.ok.injEq] at h
+        exact ⟨dt, hdt, h.symm, by simpa using hl⟩
+
+theorem npCast_of_ne_str {dt : DType} (h : dt ≠ .str) (xs : List Val) : npCast dt xs = xs := if_neg h
+
+/-- an int / float / `None` replacement never leads to a string dtype -/
+theorem promote_ne_str_of_plain {c r dt : DType} (h1 : r ≠ .str) (h2 : r ≠ .bool)
+    (h : c.promote r = some dt) : dt ≠ .str := by
+  cases c <;> cases r <;> simp_all [DType.promote, DType.infer] <;> (subst h; decide)
+
+theorem applyNp_some_ok {r : Scalar} (hr : r.Plain) {bits : List Bool} {xs : List Val} {y : Val}
+    (h : applyNp (some r) bits xs = .ok y) :
+    y = .seq true (replBits (Val.fill r) bits xs) ∧ bits.length = xs.length := by
+  obtain ⟨dt, hdt, rfl, hl⟩ := applyNp_some_ok' h
+  rw [npCast_of_ne_str (promote_ne_str_of_plain hr.1 hr.2 hdt)]
+  exact ⟨rfl, hl⟩
 
 theorem asSeq_ok {x : Val} {xs : List Val} (h : Val.asSeq x = .ok xs) : ∃ arr, x = .seq arr xs := by
   cases x <;> simp [Val.asSeq] at h
@@ -216,7 +237,7 @@ theorem mapE_applyTop_np_none (bits : List Bool) :
     · exact hl
     · exact i2 c' h'
 
-theorem mapE_applyTop_np_some (r : Int) (bits : List Bool) :
+theorem mapE_applyTop_np_some (r : Scalar) (hr : r.Plain) (bits : List Bool) :
     ∀ {args args' : List Val} {cols : List (List Val)},
       mapE (fun x => applyTop (some r) x (.np bits)) args = .ok args' → mapE Val.asSeq args = .ok cols →
       mapE Val.asSeq args' = .ok (cols.map (replBits (Val.fill r) bits)) ∧
@@ -234,7 +255,7 @@ theorem mapE_applyTop_np_some (r : Int) (bits : List Bool) :
     obtain ⟨c, cs, hc, hcs, rfl⟩ := mapE_cons_ok h2
     obtain ⟨arr, rfl⟩ := asSeq_ok hc
     simp only [applyTop] at hx
-    obtain ⟨rfl, hl⟩ := applyNp_some_ok hx
+    obtain ⟨rfl, hl⟩ := applyNp_some_ok hr hx
     obtain ⟨i1, i2⟩ := ih hxs hcs
     refine ⟨mapE_cons_of_ok rfl i1, ?_⟩
     intro c' hc'
@@ -286,12 +307,12 @@ theorem decCols_rowWise : RowWise decCols := by
   exact filterBits_length_congr bits d' d (by rw [← h2 d hd, ← h2 d' hd'])
 
 /-- **`decCols` is row-wise** (replace mode): an unselected row has every scalar replaced -/
-theorem decCols_rowWiseRepl (r : Int) :
+theorem decCols_rowWiseRepl (r : Scalar) (hr : r.Plain) :
     RowWiseRepl decCols r (fun row : List Val => row.map (Val.fill r)) := by
   intro args rows bits args' hdec hmask
   obtain ⟨cols, hc, rfl⟩ := decCols_ok hdec
   simp only [applyMasks] at hmask
-  obtain ⟨h1, h2⟩ := mapE_applyTop_np_some r bits hmask hc
+  obtain ⟨h1, h2⟩ := mapE_applyTop_np_some r hr bits hmask hc
   rw [← zipRows_replBits]
   apply decCols_of_cols h1
   intro c hc1 c' hc2
@@ -362,7 +383,7 @@ def exSlicerWithin : Slicer :=
 
 def exPipeline : Pipeline (List Val) Stat Rv := ⟨[exAgg, exAgg2], [exSlicer, exSlicerRepl, exSlicerWithin]⟩
 
-def exCol (xs : List Int) : Val := .seq false (xs.map .leaf)
+def exCol (xs : List Int) : Val := .seq false (xs.map fun x => .leaf (.int x))
 
 /-- three batches; slice `a = 2` first occurs in the last one, the middle batch is empty -/
 def exStream : List Batch :=
